@@ -20,6 +20,9 @@ namespace {
    struct Recorder : ipr::Visitor {
       std::vector<std::string> hooks;
       int depth = 0, entries = 0;
+      const void* target = nullptr;         // the node accept() was called on
+      int strangers = 0;                    // hooks that were handed another object than that node
+      void seen(const ipr::Node& n) { if (static_cast<const void*>(&n) != target) ++strangers; }
       template<class F> void enter(const char* name, F next)
       {
          if (depth == 0) ++entries;
@@ -28,15 +31,15 @@ namespace {
          next();
          --depth;
       }
-      void visit(const ipr::Node&) override { enter("Node", [] { }); }
-      void visit(const ipr::Expr&) override { enter("Expr", [] { }); }
-      void visit(const ipr::Name&) override { enter("Name", [] { }); }
-      void visit(const ipr::Type&) override { enter("Type", [] { }); }
-      void visit(const ipr::Directive&) override { enter("Directive", [] { }); }
-      void visit(const ipr::Stmt&) override { enter("Stmt", [] { }); }
-      void visit(const ipr::Decl&) override { enter("Decl", [] { }); }
-      void visit(const ipr::Classic& n) override { enter("Classic", [&] { ipr::Visitor::visit(n); }); }
-#define LEAF(K) void visit(const ipr::K& n) override { enter(#K, [&] { ipr::Visitor::visit(n); }); }
+      void visit(const ipr::Node& n) override { seen(n); enter("Node", [] { }); }
+      void visit(const ipr::Expr& n) override { seen(n); enter("Expr", [] { }); }
+      void visit(const ipr::Name& n) override { seen(n); enter("Name", [] { }); }
+      void visit(const ipr::Type& n) override { seen(n); enter("Type", [] { }); }
+      void visit(const ipr::Directive& n) override { seen(n); enter("Directive", [] { }); }
+      void visit(const ipr::Stmt& n) override { seen(n); enter("Stmt", [] { }); }
+      void visit(const ipr::Decl& n) override { seen(n); enter("Decl", [] { }); }
+      void visit(const ipr::Classic& n) override { seen(n); enter("Classic", [&] { ipr::Visitor::visit(n); }); }
+#define LEAF(K) void visit(const ipr::K& n) override { seen(n); enter(#K, [&] { ipr::Visitor::visit(n); }); }
 #include "leaf_categories.inc"
 #undef LEAF
    };
@@ -99,6 +102,7 @@ namespace {
    Value visit_event(const ipr::Node& n, const std::string& how)
    {
       Recorder rec;
+      rec.target = static_cast<const void*>(&n);
       n.accept(rec);
       SinksOnly so;
       n.accept(so);
@@ -109,7 +113,7 @@ namespace {
       auto hooks = Value::array();
       for (auto& hk : rec.hooks) hooks.push(hk);
       ev.set("e", "visit").set("impl", demangle(typeid(n).name())).set("how", how)
-         .set("cat", vh::cat_name(n.category)).set("hooks", hooks).set("entries", rec.entries).set("views", views_of(n))
+         .set("cat", vh::cat_name(n.category)).set("hooks", hooks).set("handed_other_object", rec.strangers).set("entries", rec.entries).set("views", views_of(n))
          .set("sink", so.sink);
       return ev;
    }
